@@ -203,8 +203,10 @@ def encode_args(args):
     for a in args:
         if isinstance(a, bitarray):
             out.append({"bits": a.to01()})
-        elif isinstance(a, (bytes, bytearray)):
-            out.append({"hex": bytes(a).hex()})
+        elif isinstance(a, bytearray):
+            out.append({"hex": bytes(a).hex(), "mutable": True})
+        elif isinstance(a, bytes):
+            out.append({"hex": a.hex()})
         elif isinstance(a, enum.Enum):
             out.append({"enum": [type(a).__module__, type(a).__name__, a.name]})
         else:
@@ -220,7 +222,7 @@ def decode_args(enc):
         if "bits" in d:
             out.append(bitarray(d["bits"]))
         elif "hex" in d:
-            out.append(bytes.fromhex(d["hex"]))
+            out.append(bytearray.fromhex(d["hex"]) if d.get("mutable") else bytes.fromhex(d["hex"]))
         elif "enum" in d:
             out.append(getattr(importlib.import_module(d["enum"][0]), d["enum"][1])[d["enum"][2]])
         else:
